@@ -29,6 +29,8 @@ KINDS = {
     'unknownshell': ('UnknownShell', 'Unknown shell'),
     'noncmdspec': ('NonCommandSpecialization', 'Can only specialize external commands'),
     'spaces': ('SubwordSpaces', 'Adjacent literals in expression used in a subword context'),
+    # the same mistake with one of the two literals inside a group, an alternative, an option or a repetition
+    'spaces-group': ('SubwordSpaces', 'Adjacent literals in expression used in a subword context'),
     'nontail': ('UnboundedMatchable', 'Ambiguous grammar'),
     'conflict': ('ConflictingDescriptions', 'Conflicting descriptions'),
 }
@@ -177,6 +179,17 @@ def plant(r, stmts, shell):
                 return kind, stmts, True
             stmts.insert(0, call('cmd', use))
         stmts = attach(r, stmts, w)
+        return kind, stmts, True
+    if kind == 'spaces-group':
+        bad = r.choice([seq(alt(lit('pa'), lit('pc')), lit('pb')), seq(lit('pa'), opt(lit('pb'))),
+                        seq(opt(lit('pa')), lit('pb')), seq(many(lit('pa')), lit('pb')),
+                        seq(fb(lit('pa'), lit('pc')), lit('pb')), seq(lit('pa'), alt(lit('pb'), lit('pd'))),
+                        seq(lit('pa'), many(alt(lit('pb'), lit('pd'))))])
+        e = bad
+        if r.random() < 0.6:
+            stmts.insert(r.randint(0, len(stmts)), defn('SPG', None, e))
+            e = nt('SPG')
+        stmts = attach(r, stmts, ('word', (lit('sp='), e)))
         return kind, stmts, True
     if kind == 'nontail':
         u = nt('PU')
